@@ -46,7 +46,7 @@ PROPS = {
         assumptions=['symbolic cryptography in the mint model: a C field is genuine iff it is the term CSig keyset amount secret (one-more unforgeability of BDHKE, collision resistance of hash_to_curve); the algebra itself is C10', 'each storage.MintDB call is atomic and durable once it returns (SQLite); PRIMARY KEY/UNIQUE as in the migrations', 'the Lightning backend is the scripted lightning.Client of the harness; real LND/CLN adapters are not executed']),
     'C02': dict(
         file='Props/C02.v',
-        streams=[('c02-hist', 'tie')],
+        streams=[('c02-hist', 'tie'), ('c07-cuts', 'tie')],
         assumptions=['symbolic cryptography in the mint model: a C field is genuine iff it is the term CSig keyset amount secret (one-more unforgeability of BDHKE, collision resistance of hash_to_curve); the algebra itself is C10', 'each storage.MintDB call is atomic and durable once it returns (SQLite); PRIMARY KEY/UNIQUE as in the migrations', 'the Lightning backend is the scripted lightning.Client of the harness; real LND/CLN adapters are not executed']),
     'C03': dict(
         file='Props/C03.v',
@@ -66,7 +66,7 @@ PROPS = {
         assumptions=['symbolic cryptography in the mint model: a C field is genuine iff it is the term CSig keyset amount secret (one-more unforgeability of BDHKE, collision resistance of hash_to_curve); the algebra itself is C10', 'each storage.MintDB call is atomic and durable once it returns (SQLite); PRIMARY KEY/UNIQUE as in the migrations', 'the Lightning backend is the scripted lightning.Client of the harness; real LND/CLN adapters are not executed']),
     'C15': dict(
         file='Props/C15.v',
-        streams=[('c15-hist', 'tie')],
+        streams=[('c15-hist', 'tie'), ('c07-cuts', 'tie')],
         assumptions=['symbolic cryptography in the mint model: a C field is genuine iff it is the term CSig keyset amount secret (one-more unforgeability of BDHKE, collision resistance of hash_to_curve); the algebra itself is C10', 'each storage.MintDB call is atomic and durable once it returns (SQLite); PRIMARY KEY/UNIQUE as in the migrations', 'the Lightning backend is the scripted lightning.Client of the harness; real LND/CLN adapters are not executed']),
     'C16': dict(
         file='Props/C16.v',
@@ -86,6 +86,30 @@ PROPS = {
         assumptions=[
             'request abstraction: the harness tells the model what encoding/json makes of each body (class + decoded operation) and which exact bytes method/URL/body were; bodies over 4096 bytes are identified by SHA-256',
             'no NUL byte in req.Method / req.URL.String() (net/http rejects them); cache TTL (300 s) not modelled, histories last seconds; symbolic blind signatures and scripted Lightning backend as for the mint model',
+        ]),
+    'C08': dict(
+        file='Props/C08.v',
+        streams=[('c08-hist', 'tie')],
+        assumptions=[
+            "requests are symbolic terms (blinding factors and secrets are handles with their (seed, keyset, counter) origin); the mint side of the wallet model is an honest-mint oracle",
+            "the Lightning network between mints is the scripted one of the harness; a fresh MintServer per operation (empty NUT-19 cache); bbolt calls atomic",
+            "after a wallet crash cut the wallet continues only through restore (post-cut states depend on tie-breaks); NUT-08 change, MPP, UpdateMintURL are not modelled",
+        ]),
+    'C17': dict(
+        file='Props/C17.v',
+        streams=[('c17-hist', 'tie')],
+        assumptions=[
+            "requests are symbolic terms (blinding factors and secrets are handles with their (seed, keyset, counter) origin); the mint side of the wallet model is an honest-mint oracle",
+            "the Lightning network between mints is the scripted one of the harness; a fresh MintServer per operation (empty NUT-19 cache); bbolt calls atomic",
+            "after a wallet crash cut the wallet continues only through restore (post-cut states depend on tie-breaks); NUT-08 change, MPP, UpdateMintURL are not modelled",
+        ]),
+    'C19': dict(
+        file='Props/C19.v',
+        streams=[('c19-hist', 'tie')],
+        assumptions=[
+            "requests are symbolic terms (blinding factors and secrets are handles with their (seed, keyset, counter) origin); the mint side of the wallet model is an honest-mint oracle",
+            "the Lightning network between mints is the scripted one of the harness; a fresh MintServer per operation (empty NUT-19 cache); bbolt calls atomic",
+            "after a wallet crash cut the wallet continues only through restore (post-cut states depend on tie-breaks); NUT-08 change, MPP, UpdateMintURL are not modelled",
         ]),
     'C10': dict(
         file='Props/C10.v',
@@ -133,6 +157,9 @@ LEVEL_TEXT = {
     'C11': dict(text="Coq theorems: implementation-shaped models of hash_to_curve, DeriveKeysetId and the NUT-13 derivation equal declarative specifications transcribed from NUT-00/02/13 and BIP32, for all inputs; executable SHA-256/HMAC-SHA512/secp256k1/BIP32 in Coq compared bit for bit with the Go functions", note="primitives identified with SHA-2/secp256k1 by correspondence and test vectors (partial); see TRUSTED.md", design_ref="DESIGN.md §5 C11"),
     'C18': dict(text="Coq theorems on the wallet's selection arithmetic for every tie-break of the unstable sorts: AmountSplit sums, selection soundness, exact hand-over without fees, removal from the balance; the fee-inclusive exactness is characterised exactly (partial) and refuted with a computed witness that is replayed on two real wallets; liveness proved for active-keyset wallets and refuted otherwise; tied to /repo by differential execution of the selection helpers and end-to-end Send/Receive", note="sort.Slice tie-breaks quantified over; findings listed in known_findings.json", design_ref="DESIGN.md §5 C18"),
     'C20': dict(text="Coq theorems over a model of server.go layered on the mint state machine (status/shape/code per outcome, no internal code ever, NUT-19 replay and only-replay with injectivity of the separated key, refutation for the unseparated key), tables read from the current Go sources by the translator; tied to /repo by differential execution through the real handler with hand-built JSON", note=_MINT_NOTE + '; net/http and gorilla/mux routing, encoding/json trusted', design_ref='DESIGN.md §5 C20'),
+    'C08': dict(text="Coq theorems over a symbolic model of every wallet flow (requests as terms): for all histories incl. crash cuts no request to a mint contains a blinding factor outside a blinded message, nor a DLEQ object, nor the secret of an output; the unrepaired request construction is refuted with a computed witness (the defect was repaired in /repo); tied to /repo by differential execution of 2-3 real wallets against in-process mints with every request body scanned for the hex of every blinding factor and unspent output secret", note="symbolic (Dolev-Yao) secrecy only: nothing about timing or metadata; see evidence.assumptions", design_ref="DESIGN.md §5 C08"),
+    'C17': dict(text="Coq theorems on the wallet model: reported balance = stored proofs, per-request conservation at the honest-mint oracle (swap, mint, melt), no duplicate proofs per request (partial: the composed wallet x mint induction over histories is not proved); the MintSwap loss is refuted with a computed witness (known finding); tied to /repo by differential execution of wallet histories over 2-3 wallets and 1-2 mints with mint-side ground truth and a conservation monitor", note="partial: per-flow lemmas, not the composed induction; see evidence.assumptions", design_ref="DESIGN.md §5 C17"),
+    'C19': dict(text="Coq theorems on the wallet's counters and Restore: every deterministic output of every request of every history (incl. cuts) is derived at or above the stored counter; per-flow counter freshness (partial); restore completeness for one keyset under the no-gap hypothesis; the cumulative-counter rule and the untrusted-mint counter reuse are refuted with computed witnesses (the former repaired in /repo, the latter a known finding); tied to /repo by differential execution incl. >300 outputs, rotation, restore-continue-restore and wallet crash cuts", note="partial where named _partial; see evidence.assumptions", design_ref="DESIGN.md §5 C19"),
     'C12': _COND, 'C13': _COND,
 }
 NOT_APPLICABLE = {}
